@@ -354,5 +354,20 @@ def snapOf : J → Option Snap
 /-- `OrderBook::load_json` on a text: parse, decode, rebuild. -/
 def loadText (s : List Char) : Option Book := ((parse s).bind snapOf).map Book.load
 
+/-- `Market<ASSETS, _>`: `#[serde_as(as = "[_; ASSETS]")] order_books` — exactly `n` books. -/
+def marketOf (n : Nat) : J → Option (List Snap)
+  | .obj ms => do
+    let books ← (field ms "order_books").bind (listOf snapOf)
+    if books.length = n then pure books else none
+  | _ => none
+
+/-- The text `Market::save_json(path, pretty)` writes. -/
+def saveMarketText (books : List Book) (pretty : Bool) : List Char :=
+  if pretty then renderPretty 0 (marketJ (books.map Book.save)) else renderCompact (marketJ (books.map Book.save))
+
+/-- `Market::<n, _>::load_json` on a text. -/
+def loadMarketText (n : Nat) (s : List Char) : Option (List Book) :=
+  ((parse s).bind (marketOf n)).map fun snaps => snaps.map Book.load
+
 end Json
 end Bourse
